@@ -301,11 +301,38 @@ impl Check for C06 {
             5 if case.login.is_some() => format!("expect-protocol:{}", names.first().cloned().unwrap_or_default()),
             _ => "enum".to_string(),
         };
+        // the typed helper asked for ANOTHER type than the one that arrives (world: a type whose helper is instantiated in
+        // all three flavours): the three flavours must agree on the error kind and on the bytes consumed, also when the
+        // stream ends inside the unexpected message
+        let mut names = names;
+        let mut wrong_desc = String::new();
+        if entry.starts_with("expect:") && case.login.is_none() && !names.is_empty() && cf.chance(1, 3) {
+            let all = type_names(case.exp, case.dir);
+            let k = cf.below(names.len() as u64) as usize;
+            let pick = (cf.below((all.len() as u64 + 5) / 6) * 6) as usize;
+            if pick < all.len() && all[pick] != names[k] {
+                wrong_desc = format!("helper asked for {} where {} arrives (message #{})", all[pick], names[k], k);
+                names[k] = all[pick].to_string();
+                if cf.chance(1, 2) && starts.get(k).is_some() {
+                    // and the stream ends inside that message
+                    let a = starts[k];
+                    let b = starts.get(k + 1).copied().unwrap_or(stream.len());
+                    if b > a + 1 {
+                        let cut = a + 1 + cf.below((b - a - 1) as u64) as usize;
+                        stream.truncate(cut);
+                        names.truncate(k + 1);
+                        starts.truncate(k + 1);
+                        bounds.retain(|b| *b < cut);
+                        wrong_desc.push_str(&format!(", stream ends at {}", cut));
+                    }
+                }
+            }
+        }
         let end_error = if cf.chance(1, 5) { "ConnectionReset" } else { "" };
-        let kind = if fault_at.is_none() && cf.chance(1, 6) { "write" } else { "read" };
+        let kind = if fault_at.is_none() && cf.chance(1, 6) && wrong_desc.is_empty() { "write" } else { "read" };
         let total = stream.len() + 16;
         json!({"kind": kind, "label": format!("{}:{}", case.label(), names.join("+")), "case": case_json(&case), "names": names, "stream": bytes_to_json(&stream),
-            "bounds": bounds, "starts": starts, "entry": entry, "end_error": end_error, "enumerated": false, "fault": fault_desc,
+            "bounds": bounds, "starts": starts, "entry": entry, "end_error": end_error, "enumerated": false, "fault": fault_desc, "wrong_expectation": wrong_desc,
             "sched_t": sched_json(&Schedule::random(&mut sr, total, false)), "sched_a": sched_json(&Schedule::random(&mut sr, total, false)),
             "sched_s": sched_json(&Schedule::random(&mut sr, total, true))})
     }
